@@ -19,13 +19,14 @@ structure Frame (s s' : St) : Prop where
   snap_ver : ∀ i, i < s.nSnap → (s'.snap i).ver = (s.snap i).ver
   snap_open : ∀ i, i < s.nSnap → (s'.snap i).st = .opened →
     (s.snap i).st = .opened ∧ ∀ f ∈ (s.snap i).held, f ∈ (s'.snap i).held
+  hist_grows : ∀ e ∈ s.hist, e ∈ s'.hist
 
 theorem Frame.refl (s : St) : Frame s s := by
   constructor <;> simp
 
 theorem Frame.trans {a b c : St} (h1 : Frame a b) (h2 : Frame b c) : Frame a c := by
-  obtain ⟨a1, a2, a3, a4, a5, a6, a7⟩ := h1
-  obtain ⟨b1, b2, b3, b4, b5, b6, b7⟩ := h2
+  obtain ⟨a1, a2, a3, a4, a5, a6, a7, a8⟩ := h1
+  obtain ⟨b1, b2, b3, b4, b5, b6, b7, b8⟩ := h2
   constructor
   · omega
   · intro v hv; rw [b2 v (by omega), a2 v hv]
@@ -37,6 +38,7 @@ theorem Frame.trans {a b c : St} (h1 : Frame a b) (h2 : Frame b c) : Frame a c :
     obtain ⟨x1, x2⟩ := b7 i (by omega) ho
     obtain ⟨y1, y2⟩ := a7 i hi x1
     exact ⟨y1, fun f hf => x2 f (y2 f hf)⟩
+  · intro e he; exact b8 e (a8 e he)
 
 theorem removeVersion_frame (cfg : Cfg) (s : St) (v : Nat) : Frame s (removeVersion cfg s v) := by
   unfold removeVersion; split <;> constructor <;> simp
@@ -54,7 +56,7 @@ theorem snapGetReader_frame (s : St) (i f : Nat) (keep : Bool) : Frame s (snapGe
 macro "frame_tac" : tactic =>
   `(tactic| (constructor <;>
       simp only [jAlloc, allocFile, jCreate, createFiles, jLock, setLock, jSnap, buildVersion, snapAcquire, jSwap,
-        swapVersion, jCheck, jUnlock, jUnpend, unpend, setCompacting, doList, doPend, doActive, doRollup, doEvict,
+        swapVersion, noteFlush, jSnapU, cloneVersion, jLockU, jCheck, jUnlock, jUnpend, unpend, setCompacting, doList, doPend, doActive, doRollup, doEvict,
         evictFile, doRemove, removeFile, jFinish, setPc, St.setJob, St.setSnap, snapDec, snapRel, spawnJob, cleanFiles] <;>
       grind [upd]))
 
@@ -64,6 +66,8 @@ theorem frame_jAlloc (s : St) (j : Nat) (c : Content) (l : Nat) : Frame s (jAllo
 theorem frame_jCreate (cfg : Cfg) (s : St) (j : Nat) : Frame s (jCreate cfg s j) := by frame_tac
 theorem frame_jLock (s : St) (j : Nat) : Frame s (jLock s j) := by frame_tac
 theorem frame_jSnap (s : St) (j : Nat) : Frame s (jSnap s j) := by frame_tac
+theorem frame_jSnapU (s : St) (j : Nat) : Frame s (jSnapU s j) := by frame_tac
+theorem frame_jLockU (s : St) (j : Nat) : Frame s (jLockU s j) := by frame_tac
 theorem frame_jSwap (s : St) (j : Nat) : Frame s (jSwap s j) := by frame_tac
 theorem frame_jCheck (s : St) (j : Nat) : Frame s (jCheck s j) := by frame_tac
 theorem frame_jUnlock (s : St) (j : Nat) : Frame s (jUnlock s j) := by frame_tac
@@ -145,58 +149,64 @@ theorem frame_jstep {cfg : Cfg} {s s' : St} {j : Nat} (hs : jstep cfg s j = some
     split at hs
     · cases hs; exact frame_setPc _ _ _
     · split at hs
-      · cases hs; exact frame_jLock _ _
-      · cases hs
-  case h_7 hpc => cases hs; exact frame_jSnap _ _
-  case h_8 hpc => cases hs; exact frame_jSwap _ _
-  case h_9 hpc => cases hs; exact frame_jCheck _ _
-  case h_10 hpc => cases hs; exact frame_jPrevRm _ _ _
-  case h_11 hpc =>
+      · split at hs
+        · cases hs; exact frame_jLock _ _
+        · cases hs
+      · cases hs; exact frame_jSnapU _ _
+  case h_7 hpc =>
     split at hs
-    · cases hs; exact Frame.trans (frame_setPc _ _ _) (frame_snapDec _ _)
+    · cases hs; exact frame_jLockU _ _
     · cases hs
+  case h_8 hpc => cases hs; exact frame_jSnap _ _
+  case h_9 hpc => cases hs; exact frame_jSwap _ _
+  case h_10 hpc => cases hs; exact frame_jCheck _ _
+  case h_11 hpc => cases hs; exact frame_jPrevRm _ _ _
   case h_12 hpc =>
     split at hs
-    · cases hs; exact Frame.trans (frame_setPc _ _ _) (frame_snapRemove _ _ _ _)
+    · cases hs; exact Frame.trans (frame_setPc _ _ _) (frame_snapDec _ _)
     · cases hs
   case h_13 hpc =>
     split at hs
+    · cases hs; exact Frame.trans (frame_setPc _ _ _) (frame_snapRemove _ _ _ _)
+    · cases hs
+  case h_14 hpc =>
+    split at hs
     · cases hs; exact Frame.trans (frame_setPc _ _ _) (frame_snapRel _ _)
     · cases hs
-  case h_14 hpc => cases hs; exact frame_jUnlock _ _
-  case h_15 hpc =>
+  case h_15 hpc => cases hs; exact frame_jUnlock _ _
+  case h_16 hpc =>
     split at hs
     · cases hs; exact frame_jUnpend _ _ _
     · cases hs; exact frame_jUnpend _ _ _
-  case h_16 hpc =>
+  case h_17 hpc =>
     split at hs
     · cases hs; exact Frame.trans (frame_setPc _ _ _) (frame_snapDec _ _)
     · cases hs
-  case h_17 hpc =>
+  case h_18 hpc =>
     split at hs
     · cases hs; exact Frame.trans (frame_setPc _ _ _) (frame_snapRemove _ _ _ _)
     · cases hs
-  case h_18 hpc =>
+  case h_19 hpc =>
     split at hs
     · cases hs; exact Frame.trans (frame_setPc _ _ _) (frame_snapRel _ _)
     · cases hs
-  case h_19 hpc => cases hs; exact frame_doList _ _
-  case h_20 hpc => cases hs; exact frame_doPend _ _
-  case h_21 hpc => cases hs; exact frame_doActive _ _
-  case h_22 hpc => cases hs; exact frame_doRollup _ _
-  case h_23 hpc =>
-    split at hs
-    · cases hs; exact frame_jFinish _ _
-    · cases hs; exact frame_doEvict _ _ _
+  case h_20 hpc => cases hs; exact frame_doList _ _
+  case h_21 hpc => cases hs; exact frame_doPend _ _
+  case h_22 hpc => cases hs; exact frame_doActive _ _
+  case h_23 hpc => cases hs; exact frame_doRollup _ _
   case h_24 hpc =>
     split at hs
     · cases hs; exact frame_jFinish _ _
     · cases hs; exact frame_doEvict _ _ _
   case h_25 hpc =>
     split at hs
+    · cases hs; exact frame_jFinish _ _
+    · cases hs; exact frame_doEvict _ _ _
+  case h_26 hpc =>
+    split at hs
     · cases hs
     · cases hs; exact frame_doRemove _ _ _ _
-  case h_26 hpc => cases hs
+  case h_27 hpc => cases hs
 
 theorem frame_step {cfg : Cfg} {s s' : St} {a : Act} (hs : step cfg s a = some s') : Frame s s' := by
   cases a with
